@@ -188,6 +188,11 @@ def run(prop, args):
     grid = [(n, s, d, c8, "dp") for n in range(NS + 1, ND + 1) for s in (1, 2, 3) for d in (0, 1, 2, 3)
             for c8 in ([8, 8, 16, 16], [8, 16, 24, 4], [16, 8, 4, 40], [8, 24, 8, 0], [24, 8, 0, 8], [8, 8, 32, 32])]
     jobs += grid
+    # expensive disk (ratio (wd+rd)/uf from 12.5 to 40): few RAM units, one disk unit, every n
+    NE = 70 if tier == "quick" else 130
+    grid2 = [(n, s, 1, c8, "dp") for n in range(8, NE + 1) for s in (1, 2, 3)
+             for c8 in ([8, 8, 50, 50], [8, 8, 80, 80], [8, 8, 160, 160], [8, 8, 16, 160], [8, 16, 256, 256])]
+    jobs += grid2
     LT = 100 if tier == "quick" else 260
     scan_c8 = SEARCH_C8 + [[8, 8, 32, 32], [8, 8, 64, 64], [12, 8, 188, 45], [4, 8, 64, 8], [8, 4, 8, 64], [16, 16, 16, 64]]
     scan = R.pmap(_table_scan, [(sr, 4, c8, LT) for sr in (1, 2, 3) for c8 in scan_c8], chunksize=1)
@@ -208,7 +213,8 @@ def run(prop, args):
         R.harness_error("hierarchical oracles disagree (search vs dp): %s" % mism[:3])
     rep.exhaustive = [{"box": "n<=%d, RAM units<=%d, DISK units<=%d, %d cost vectors, compared with exhaustive search over all executable schedules" % (NS, SR, SD, len(SEARCH_C8)),
                        "cases": nsearch, "exhaustive": True},
-                      {"box": "n in %d..%d, RAM units 1..3, DISK units 0..3, 6 cost vectors, compared with the DP" % (NS + 1, ND), "cases": len(grid), "exhaustive": True}]
+                      {"box": "n in %d..%d, RAM units 1..3, DISK units 0..3, 6 cost vectors, compared with the DP" % (NS + 1, ND), "cases": len(grid), "exhaustive": True},
+                      {"box": "expensive disk: n in 8..%d, RAM units 1..3, 5 cost vectors with (wd+rd)/uf in 12.5..64" % NE, "cases": len(grid2), "exhaustive": True}]
     rep.extra["oracle_selfcheck"] = {"search_vs_dp_groups": nsearch}
     for out in res:
         n, s, d, c8, mode = out["job"]
